@@ -606,8 +606,14 @@ class Zeroconf(QuietLogger):
                 if not allow_name_change:
                     raise NonUniqueNameException
 
-                # change the name and look for a conflict
+                # change the name and look for a conflict; a server name that
+                # is the instance name (the default, filled in when the object
+                # was registered before) goes with it
+                server_follows = info.server is not None and info.server_key == info.key
                 info.name = f'{instance_name}-{next_instance_number}.{info.type}'
+                if server_follows:
+                    info.server = info.name
+                    info.server_key = info.key
                 next_instance_number += 1
                 service_type_name(info.name, strict=strict)
                 next_time = now
